@@ -16,6 +16,38 @@ type XConn struct {
 	Num   map[string][]Rng
 	Names map[string][]string
 	Raw   string
+	// APINum / APIAll: the numbered ports as returned by ProtocolsAndPortsMap() / IsAllConnections() (nil when the value
+	// was only parsed from text); the text rendering must agree with them
+	APINum map[string][]Rng `json:",omitempty"`
+	APIAll bool             `json:",omitempty"`
+}
+
+// TextAgreesWithAPI: the numbered ports of the printed form equal those of the returned value.
+func (x *XConn) TextAgreesWithAPI() (bool, string) {
+	if x.APINum == nil {
+		return true, ""
+	}
+	if x.All != x.APIAll {
+		return false, fmt.Sprintf("printed %q but IsAllConnections()=%v", x.Raw, x.APIAll)
+	}
+	if x.All {
+		return true, ""
+	}
+	a, b := map[string]string{}, map[string]string{}
+	for p, rs := range x.Num {
+		if len(rs) > 0 {
+			a[p] = fmt.Sprint(rs)
+		}
+	}
+	for p, rs := range x.APINum {
+		if len(rs) > 0 {
+			b[p] = fmt.Sprint(rs)
+		}
+	}
+	if fmt.Sprint(a) != fmt.Sprint(b) {
+		return false, fmt.Sprintf("printed %q, numbered ports by protocol %v, but ProtocolsAndPortsMap() holds %v", x.Raw, a, b)
+	}
+	return true, ""
 }
 
 // ParseConn parses the tool's connection string ("All Connections", "TCP 80,90-100,http,UDP 53", ...).
@@ -116,8 +148,16 @@ func exposedPeers(ca *connlist.ConnlistAnalyzer) []XPeer {
 		p := XPeer{Peer: ep.ExposedPeer().String(), ProtIn: ep.IsProtectedByIngressNetpols(), ProtEg: ep.IsProtectedByEgressNetpols()}
 		conv := func(ds []connlist.XgressExposureData) (out []XEntry) {
 			for _, d := range ds {
-				raw := fmt.Sprint(d.PotentialConnectivity())
-				out = append(out, XEntry{Entire: d.IsExposedToEntireCluster(), Ns: fromK(d.NamespaceLabels()), Pod: fromK(d.PodLabels()), Conn: ParseConn(raw)})
+				pc := d.PotentialConnectivity()
+				x := ParseConn(fmt.Sprint(pc))
+				x.APIAll = pc.IsAllConnections()
+				x.APINum = map[string][]Rng{}
+				for proto, prs := range pc.ProtocolsAndPortsMap() {
+					for _, pr := range prs {
+						x.APINum[string(proto)] = append(x.APINum[string(proto)], Rng{int(pr.Start()), int(pr.End())})
+					}
+				}
+				out = append(out, XEntry{Entire: d.IsExposedToEntireCluster(), Ns: fromK(d.NamespaceLabels()), Pod: fromK(d.PodLabels()), Conn: x})
 			}
 			return
 		}
